@@ -156,13 +156,25 @@ def is_unknown_rec(fh):
     return (fh.digest == b"u") & (fh.mode == 0) & (fh.size == 0)
 
 
+def same_object(a, b):
+    """`a is b` for frozen value objects: identity, or equality of every field (which no observer but `is`
+    can tell apart)."""
+    r = sym.is_(a, b)
+    if r is True:
+        return True
+    return sym.sym_eq_val(a, b)
+
+
 def _refreshed_post(self, path, result, trace):
+    if trace is None:
+        # used as a callee contract: the stat outcome is internal; only the clause `valid` is exported
+        return True
     ev = _stat_event(trace)
     if ev is None:
         return False
     if not ev.ok:
         # stat failed: unknown; `self` is returned when it already is unknown
-        return is_unknown_rec(result) & sym.wrap_bool(tm.Implies(B(self.digest == b"u"), B(sym.is_(result, self))))
+        return is_unknown_rec(result) & sym.wrap_bool(tm.Implies(B(self.digest == b"u"), B(same_object(result, self))))
     st = ev.st
     same = ((self.mode == st.st_mode) & sym.sym_eq(self.mtime, st.st_mtime) & (self.size == st.st_size)
             & (self.inode == st.st_ino))
@@ -171,7 +183,7 @@ def _refreshed_post(self, path, result, trace):
              & sym.sym_eq(result.mtime, st.st_mtime))
     # property: "reported as changed whenever its modification time, size, inode or mode differs":
     # only when all four agree may the recorded hash be returned; otherwise the content is re-read.
-    return sym.wrap_bool(tm.Ite(B(same), B(sym.is_(result, self)), B(fresh)))
+    return sym.wrap_bool(tm.Ite(B(same), B(same_object(result, self)), B(fresh)))
 
 
 @contract("stepup/core/hash.py::FileHash.refreshed", props=["C13", "C04", "C06"])
